@@ -73,6 +73,26 @@ class Graph:
         paths shorter than the split prefixes are replayed as well)."""
         return self.paths_under([], maxlen)
 
+    def maximal_paths(self, prefix=(), limit=None):
+        """Every path from init (extending `prefix`) that ends in a state without successors."""
+        s = self.init
+        labels = []
+        for i in prefix:
+            a, s = self.adj[s][i]
+            labels.append(a)
+        stack = [(s, labels)]
+        n = 0
+        while stack:
+            s, labels = stack.pop()
+            if not self.adj[s]:
+                yield labels
+                n += 1
+                if limit and n >= limit:
+                    return
+                continue
+            for a, t in self.adj[s]:
+                stack.append((t, labels + [a]))
+
     def random_walk(self, rng, length, weight=None):
         s = self.init
         labels = []
